@@ -328,7 +328,8 @@ def summarize(tier: str, seed: int, merged: dict) -> dict:
             f"ranges {RANGES} x implication {IMPLS} x aggregation {AGGRS} x all ordered sets of 0..2 activated terms over a "
             f"10-term alphabet x degrees {DEGREES} (3-term sets over a reduced alphabet) x resolutions "
             f"k<=1:{len(resolutions(tier, 1))} k=2:{len(resolutions(tier, 2))} k=3:{len(resolutions(tier, 3))} x 5 defuzzifiers; "
-            "plus batch-vs-scalar (100 term pairs x 4 rows) and centroid translation by 1; non-trivial = the sampled set "
+            "plus sets of 1..2 terms with degrees 2^-12 / 2^-11 (memberships inside the comparison tolerance of zero), batch-vs-scalar (100 term "
+            "pairs x 4 rows at resolutions 1, 2, 3, 4 (square), 5, 16), aliasing scenarios and centroid translation by 1; non-trivial = the sampled set "
             "is not all zero"
         ),
         "exhaustive": True,
